@@ -280,6 +280,43 @@ func (fc *fileCtx) firstNewCall(s ast.Stmt, isNew func(*types.Func) bool, decls 
 			return fc.newCallee(call, isNew, decls)
 		}
 		if blocked {
+			// other calls come first in this expression. A helper that only computes from its
+			// arguments (no writes, no calls beyond pure library functions) may still be hoisted in
+			// front of them: nothing it does can be observed by them or depend on them, apart from
+			// a mutation of what its arguments point to, which the Go specification leaves
+			// unordered with respect to those reads anyway.
+			var found *ast.CallExpr
+			ast.Inspect(e, func(n ast.Node) bool {
+				if found != nil {
+					return false
+				}
+				switch x := n.(type) {
+				case *ast.FuncLit:
+					return false
+				case *ast.BinaryExpr:
+					if x.Op == token.LAND || x.Op == token.LOR {
+						ast.Inspect(x.X, func(m ast.Node) bool {
+							if c, ok := m.(*ast.CallExpr); ok && found == nil && isTarget(c) {
+								found = c
+							}
+							return found == nil
+						})
+						return false // never from the conditional right-hand side
+					}
+				case *ast.CallExpr:
+					if isTarget(x) {
+						found = x
+						return false
+					}
+				}
+				return true
+			})
+			if found != nil {
+				c2, callee := fc.newCallee(found, isNew, decls)
+				if c2 != nil && readOnlyHelper(decls[callee], fc.pkg.TypesInfo) && argsPure(found, fc.pkg.TypesInfo) {
+					return c2, callee
+				}
+			}
 			return nil, nil
 		}
 	}
@@ -323,6 +360,115 @@ func stmtHasCall(s ast.Stmt) bool {
 		return !found
 	})
 	return found
+}
+
+// argsPure: the call's receiver and arguments contain no calls (other than conversions, len, cap).
+func argsPure(call *ast.CallExpr, info *types.Info) bool {
+	ok := true
+	check := func(e ast.Expr) {
+		ast.Inspect(e, func(n ast.Node) bool {
+			switch x := n.(type) {
+			case *ast.CallExpr:
+				if tv, isT := info.Types[x.Fun]; isT && tv.IsType() {
+					return true
+				}
+				if id, isId := x.Fun.(*ast.Ident); isId {
+					if _, isB := info.Uses[id].(*types.Builtin); isB && (id.Name == "len" || id.Name == "cap") {
+						return true
+					}
+				}
+				ok = false
+			case *ast.FuncLit:
+				ok = false
+			case *ast.UnaryExpr:
+				if x.Op == token.ARROW {
+					ok = false
+				}
+			}
+			return ok
+		})
+	}
+	if sel, isSel := call.Fun.(*ast.SelectorExpr); isSel {
+		check(sel.X)
+	}
+	for _, a := range call.Args {
+		check(a)
+	}
+	return ok
+}
+
+// readOnlyHelper: the helper assigns only to its own local variables and calls only functions of
+// side-effect-free library packages (or builtins / conversions).
+func readOnlyHelper(fd *ast.FuncDecl, info *types.Info) bool {
+	if fd == nil || fd.Body == nil {
+		return false
+	}
+	purePkgs := map[string]bool{"time": true, "math": true, "math/big": false, "strings": true, "bytes": true, "strconv": true, "errors": true,
+		"encoding/hex": true, "encoding/binary": true, "unicode": true, "unicode/utf8": true, "sort": false, "fmt": true,
+		"github.com/ethereum/go-ethereum/common": true}
+	local := func(id *ast.Ident) bool {
+		obj := info.Defs[id]
+		if obj == nil {
+			obj = info.Uses[id]
+		}
+		v, ok := obj.(*types.Var)
+		return ok && !v.IsField() && v.Pos() >= fd.Body.Pos() && v.Pos() <= fd.Body.End()
+	}
+	ok := true
+	ast.Inspect(fd.Body, func(n ast.Node) bool {
+		switch x := n.(type) {
+		case *ast.AssignStmt:
+			for _, l := range x.Lhs {
+				id, isId := l.(*ast.Ident)
+				if !isId || (id.Name != "_" && !local(id)) {
+					ok = false
+				}
+			}
+		case *ast.IncDecStmt:
+			id, isId := x.X.(*ast.Ident)
+			if !isId || !local(id) {
+				ok = false
+			}
+		case *ast.SendStmt, *ast.GoStmt, *ast.DeferStmt, *ast.FuncLit, *ast.RangeStmt:
+			// (a range over a channel or map is harmless, but keep the class small)
+			if _, isRange := n.(*ast.RangeStmt); !isRange {
+				ok = false
+			}
+		case *ast.UnaryExpr:
+			if x.Op == token.ARROW {
+				ok = false
+			}
+		case *ast.CallExpr:
+			if tv, isT := info.Types[x.Fun]; isT && tv.IsType() {
+				return true
+			}
+			switch f := x.Fun.(type) {
+			case *ast.Ident:
+				if _, isB := info.Uses[f].(*types.Builtin); isB {
+					switch f.Name {
+					case "len", "cap", "make", "new", "append", "min", "max":
+						return true
+					}
+				}
+				ok = false
+			case *ast.SelectorExpr:
+				if pk, isPk := f.X.(*ast.Ident); isPk {
+					if pn, isPn := info.Uses[pk].(*types.PkgName); isPn && purePkgs[pn.Imported().Path()] {
+						return true
+					}
+				}
+				// methods of values from pure packages (time.Time, binary.ByteOrder …)
+				if fn, isFn := info.Uses[f.Sel].(*types.Func); isFn && fn.Pkg() != nil && purePkgs[fn.Pkg().Path()] {
+					return true
+				}
+				ok = false
+			default:
+				ok = false
+			}
+		}
+		return ok
+	})
+	return ok
 }
 
 // firstCall returns the first call (in evaluation order) of expression e that is evaluated
@@ -1130,12 +1276,25 @@ func (fc *fileCtx) bodyText(fd *ast.FuncDecl, calleeFile *ast.File, results []st
 				for _, r := range results {
 					lhs = append(lhs, ast.NewIdent(r))
 				}
-				list = append(list, &ast.AssignStmt{Lhs: lhs, Tok: token.ASSIGN, Rhs: x.Results})
+				singleBool := !asClosure && len(results) == 1 && len(x.Results) == 1 && len(resKinds) == 1 && resKinds[0] == "bool"
+				if id, ok := x.Results[0].(*ast.Ident); ok && (id.Name == "true" || id.Name == "false") {
+					singleBool = false
+				}
+				if singleBool {
+					// `return a || b` becomes `if a || b { r = true } else { r = false }`: the
+					// compiler's short-circuit control flow then gives every comparison its own
+					// branch edge, exactly as if the condition had been written at the call site
+					list = append(list, &ast.IfStmt{Cond: x.Results[0],
+						Body: &ast.BlockStmt{List: []ast.Stmt{&ast.AssignStmt{Lhs: lhs, Tok: token.ASSIGN, Rhs: []ast.Expr{ast.NewIdent("true")}}}},
+						Else: &ast.BlockStmt{List: []ast.Stmt{&ast.AssignStmt{Lhs: lhs, Tok: token.ASSIGN, Rhs: []ast.Expr{ast.NewIdent("false")}}}}})
+				} else {
+					list = append(list, &ast.AssignStmt{Lhs: lhs, Tok: token.ASSIGN, Rhs: x.Results})
+				}
 				// make the returned truth value / nil-ness explicit in control flow, so that the
 				// test the caller applies to the result after the join can be threaded back to
 				// this return: `r = E` becomes `r = E; if r { r = true } else { r = false }`
 				// (booleans) or `if r != nil { r = r } else { r = nil }` (errors, pointers)
-				if !asClosure {
+				if !asClosure && !singleBool {
 					for i, r := range results {
 						if i >= len(resKinds) {
 							break
